@@ -128,12 +128,20 @@ var phaseMap = map[string]string{
 }
 
 func modelKey(phase, key string) string {
+	unq := func(k string) string {
+		if len(k) >= 2 && k[0] == '"' && k[len(k)-1] == '"' {
+			return k[1 : len(k)-1] // a name that has to be written quoted (`z z`, or digits only: `10`)
+		}
+		return k
+	}
 	switch phase {
 	case "createGlobal", "translateGlobal":
 		if len(key) > 1 && key[0] == '@' && (key[1] < '0' || key[1] > '9') {
-			return key[1:]
+			return unq(key[1:])
 		}
 		return key // unnamed: "@0"
+	case "createType", "translateType":
+		return unq(key)
 	case "createAttrGroup", "translateAttrGroup":
 		return strings.TrimPrefix(key, "#")
 	case "createMetadata", "translateMetadata":
